@@ -22,6 +22,7 @@ PROP_RULES = {
             "AwaitResultNotDropped", "FilterIsVerdict", "SelectOpen"},
     "C15": {"NoWorkerCrash", "NoInternalError", "FailureContained", "AwaitersFail", "ResultStable"},
     "C13": {"RefsUnique"},
+    "C16": {"ParkedStackEmpty"},
     "C14": {"UseOnlyByOwner", "NeverReachesBackend", "NoCloseWhileOwnerAlive", "ClosedExactlyOnceAtExit", "OwnerCanUse",
             "ContentPreserved", "ClosedAtExitNeverReported", "ClosedAtExitDeliveredToFinished"},
     "C06": {"Counted", "NoReachableFreed", "FreeList", "NoOrphan", "ContentStable", "ContentPreserved",
@@ -35,6 +36,7 @@ MC_INVARIANTS = {
     "C15": ["NoInternalError", "FailureContained", "AwaitersFail"],
     "C06": ["NoInternalError", "NoLostWakeup", "ExactlyOnce"],
     "C13": ["RefsUnique", "NoInternalError"],
+    "C16": ["NoInternalError"],
     "C14": ["ClosedAtExit", "BackendCallsLegal", "OwnerKnown", "NoInternalError", "NoLostWakeup"],
 }
 # behaviours of the tree before the corresponding `fix:` commits (none once they are in)
